@@ -10,12 +10,20 @@ def run(ctx):
                 "FFmpeg/Flash shaped onMetaData trees, and all 256 markers each with a plausible body at the top, in an object, an ECMA "
                 "array and a strict array" + ("; random builder behaviours by simulation" + ("; depth 3 and 4" if thorough else "")) +
                 "; each case carries the specification's encoding and, for trees with a non-empty strict array, the encoding and the "
-                "decoding outcome under the named deviation StrictKeyed; a case is distinct if its JSON differs")
+                "decoding outcome under the named deviation StrictKeyed; a case is distinct if its JSON differs. "
+                "LIVE (Amf0Live.tla: values as objects with identity): MC of every observation / call / observation history (thorough: two "
+                "calls) on every node of three-level chains with LiveDecodes (the independent decoder maps the marshalled bytes to the value "
+                "the node has NOW); GEN of every history marshal a / one call on x (Set of a new scalar or empty container under an existing "
+                "or a new name, assignment through the pointer, replacement by the library's decoding of the specification's bytes) / "
+                "marshal b with a, b at or above x, from 27 start trees built or decoded, plus random walks of 14 calls; every marshalled "
+                "node must yield the specification's encoding of its current value")
     ctx.exhaustive = True
     ctx.assumptions += [
         "the independent encoder/decoder is the TLA+ specification (Enc as layout descriptors expanded by the format-agnostic LD expander, Dec evaluated by TLC); it shares no code with amf0.go",
         "names and string contents are byte patterns or the real ASCII names of onMetaData, not all byte strings",
         "the elements of a strict array have no positional accessor in the library: they are compared through the marshalled bytes",
+        "live histories: one call between two observations exhaustively (27 start trees, <= 3 pairs per container), longer ones by random walk only (<= 10 objects, 14 calls); a tree is replaced by its decoded copy only while it holds no strict array with elements (known finding); no concurrent calls",
+        "in a live history a marshalled value that holds a strict array with elements is classified as the known finding only if the bytes are exactly the StrictKeyed layout of its CURRENT value; the history is checked to its end and any other difference is a violation",
         "known finding C06/strict-array-keyed: a failing case is classified only if the tree holds a non-empty strict array AND the library's bytes equal the StrictKeyed encoding AND its decoding of the specification's bytes equals the StrictKeyed decoder's outcome predicted by the specification",
     ]
     ctx.sany("amf0", "Amf0")
@@ -28,10 +36,21 @@ def run(ctx):
     # a decoder that skips unsupported markers
     ctx.tlc("amf0", "MC_Amf0", "MC_Amf0_spec_keyedwriter.cfg", expect_violation="RoundTrip", count_states=False)
     ctx.tlc("amf0", "MC_Amf0", "MC_Amf0_markers_skip.cfg", expect_violation="MarkersOk", count_states=False)
+    # values as live objects (Amf0Live.tla): histories of calls - marshal, change below an attached node, assign a scalar in
+    # place, replace a tree by its decoded copy, marshal again - exhaustively for observation / call / observation (thorough:
+    # two calls) on every node of three-level chains; non-vacuity: a container that remembers its bytes and forgets them only
+    # when Set is called on itself
+    ctx.sany("amf0", "Amf0Live")
+    ctx.tlc("amf0", "MC_Amf0Live", "MC_Amf0Live_spec.thorough.cfg" if thorough else "MC_Amf0Live_spec.cfg", timeout=840)
+    ctx.tlc("amf0", "MC_Amf0Live", "MC_Amf0Live_spec_cache.cfg", expect_violation="LiveDecodes", count_states=False)
     cases = os.path.join(ctx.out, "cases.ndjson")
     ctx.tlc("amf0", "Gen_Amf0", "Gen_Amf0_c06.%s.cfg" % ctx.tier, cases_to=cases, timeout=840)
     # random New/Set behaviours of the builder (Set replacing values of existing names, nesting to depth 4);
     # num is per worker
     ctx.tlc("amf0", "Gen_Amf0", "Gen_Amf0_c06.sim.cfg", simulate=700 if thorough else 40, depth=80, cases_to=cases, timeout=600)
+    # histories: every marshal a / one call on x / marshal b with a, b at or above x, from every three-level start tree, built
+    # or decoded (exhaustive); random walks of 14 calls with objects detached, moved, shared, re-decoded (simulation)
+    ctx.tlc("amf0", "Gen_Amf0Live", "Gen_Amf0Live_c06.%s.cfg" % ctx.tier, cases_to=cases, timeout=840)
+    ctx.tlc("amf0", "Gen_Amf0Live", "Gen_Amf0Live_c06.walk.cfg", simulate=200 if thorough else 25, depth=40, cases_to=cases, timeout=600)
     res = ctx.replay("amf0spec", cases)
     ctx.judge("amf0spec", cases, res)
